@@ -512,41 +512,46 @@ func rulePageStamp(c *eng.Ctx) {
 	}
 	name := eng.FuncName(fn)
 	resolve := c.P.Func("tabula.(*Extractor).resolvePages")
-	var addCalls []ssa.CallInstruction
-	for _, ci := range eng.Calls(fn, false, func(n string, _ ssa.CallInstruction) bool { return n == "model.(*Document).AddPage" }) {
-		addCalls = append(addCalls, ci)
-	}
-	// the PDF branch: AddPage calls whose page argument has a Number store derived from resolvePages
+	// the page assembly may live in a helper of the package (addLayoutPage): every function of the cluster is
+	// examined on its own (stamp and AddPage must be in the same function), values are followed through helper parameters
+	cluster := eng.Cluster(fn, 2)
 	good, dead := false, false
 	var pos token.Pos = fn.Pos()
-	eng.Instrs(fn, false, func(in ssa.Instruction) {
-		st, ok := in.(*ssa.Store)
-		if !ok {
-			return
+	for _, h := range cluster {
+		var addCalls []ssa.CallInstruction
+		for _, ci := range eng.Calls(h, false, func(n string, _ ssa.CallInstruction) bool { return n == "model.(*Document).AddPage" }) {
+			addCalls = append(addCalls, ci)
 		}
-		fr, ok := eng.AsField(st.Addr)
-		if !ok || fr.Field != "Number" || !strings.HasSuffix(fr.Struct, "model.Page") {
-			return
-		}
-		fromResolve := false
-		for v := range eng.Slice(st.Val, nil) {
-			if call, ok := v.(*ssa.Call); ok && call.Call.StaticCallee() == resolve && resolve != nil {
-				fromResolve = true
+		// the PDF branch: AddPage calls whose page argument has a Number store derived from resolvePages
+		eng.Instrs(h, false, func(in ssa.Instruction) {
+			st, ok := in.(*ssa.Store)
+			if !ok {
+				return
 			}
-		}
-		for _, ac := range addCalls {
-			if len(ac.Common().Args) < 2 || !eng.SameValue(ac.Common().Args[1], fr.Base) {
-				continue
+			fr, ok := eng.AsField(st.Addr)
+			if !ok || fr.Field != "Number" || !strings.HasSuffix(fr.Struct, "model.Page") {
+				return
 			}
-			if eng.InstrDominates(st, ac) {
-				dead = true
-				pos = st.Pos()
+			fromResolve := false
+			for v := range eng.SliceInter(st.Val, nil, cluster) {
+				if call, ok := v.(*ssa.Call); ok && call.Call.StaticCallee() == resolve && resolve != nil {
+					fromResolve = true
+				}
 			}
-			if eng.InstrDominates(ac, st) && fromResolve {
-				good = true
+			for _, ac := range addCalls {
+				if len(ac.Common().Args) < 2 || !eng.SameValue(ac.Common().Args[1], fr.Base) {
+					continue
+				}
+				if eng.InstrDominates(st, ac) {
+					dead = true
+					pos = st.Pos()
+				}
+				if eng.InstrDominates(ac, st) && fromResolve {
+					good = true
+				}
 			}
-		}
-	})
+		})
+	}
 	if dead {
 		c.Viol(R, name+"#Number", pos, "Page.Number is stamped before AddPage, which overwrites it with the insertion index: a page selection reports page 1,2,… instead of the source page")
 	} else if !good {
